@@ -253,6 +253,30 @@ class LangGen:
         kids.append(self.elt(pick(6), [("cdata", " raw <cdata> " + rep1 + " "), ]))
         kids.append(self.elt(pick(7), ["before", ("cdata", "inside"), "after"]))
         kids.append(self.elt(pick(8), [("cdata", "")]))
+        if self.lid in (2001, 2101, 2201) and not d7:
+            # the MIME type rewrite: inside and outside a MetInf <Type>, both types, any case
+            meta = [t for t in self.all_tags if t[0] == "Meta"][0]
+            typ = [t for t in self.all_tags if t[0] == "Type" and t[1] == 1][0]
+            cmd = [t for t in self.all_tags if t[0] == "Cmd"][0]
+            for mt in ("application/vnd.syncml-devinf+xml", "application/vnd.syncml.dmtnds+xml", "Application/VND.SyncML-DevInf+XML",
+                       "application/vnd.syncml-devinf+wbxml", "application/vnd.syncml-devinf+xml "):
+                kids.append(self.elt(meta, [self.elt(typ, [mt])]))
+                kids.append(self.elt(cmd, [mt]))
+        return [self.root(kids)]
+
+    def binary_docs(self):
+        """binary-flagged elements (base64 in XML, OPAQUE in WBXML) with several content items: the decoded text is the
+        LAST child then, where encoder->current_tag is no longer set"""
+        bins = [t for t in self.tags if t[3] & 1]
+        if not bins:
+            return []
+        other = [t for t in self.tags if not (t[3] & 1)]
+        kids = []
+        for k, b in enumerate(bins[:12]):
+            child = self.elt(other[k % len(other)], [])
+            kids.append(self.elt(b, [BINS[0][:4], child, BINS[0][4:]]))
+            kids.append(self.elt(b, [child, BINS[k % len(BINS)]]))
+            kids.append(self.elt(b, [BINS[1], self.elt(other[(k + 1) % len(other)], ["inner"]), " "]))
         return [self.root(kids)]
 
 
@@ -275,6 +299,8 @@ def documents(tj, rng, quick=True, token_root=False):
         for d in g.text_docs(False, False):
             out.append((lang["id"], "text", (hdr + render(d, None, rootdecl=g.rootdecl)).encode("utf-8"), False))
             out.append((lang["id"], "text-indented", (hdr + render(d, 2, rootdecl=g.rootdecl)).encode("utf-8"), False))
+        for d in g.binary_docs():
+            out.append((lang["id"], "binary-mixed", (hdr + render(d, None, rootdecl=g.rootdecl)).encode("utf-8"), False))
         for d in g.text_docs(True, False):
             out.append((lang["id"], "text-d7", (hdr + render(d, None, rootdecl=g.rootdecl)).encode("utf-8"), True))
     return out
